@@ -293,9 +293,9 @@ def c09(out):
                 "every length 0..2 batches+17 and a few of 3000..4000, arbitrary stream offset, in place 1/3) or parallel ECB (0..19 blocks and up to 220, in place 1/3, Mantis tweak array); every pointer argument is "
                 "placed exact-extent against a PROT_NONE page (back or front) or at misalignment 0..63 with canaries in the slack; result must equal the same call on aligned separate buffers, inputs unmodified, "
                 "canaries intact, no fault. prod build = hardware guard pages, asan build = byte-exact poisoning of the slack, thorough adds memcheck NOACCESS slack. distinct = distinct (function, length, placement) configurations.")
-    v = [("prod", n(out, 160000, 4000000)), ("asan", n(out, 40000, 600000)), ("prod+W32+UNAL0", n(out, 40000, 300000)), ("asan+UNAL0", n(out, 20000, 100000))]
+    v = [("prod", n(out, 160000, 4000000)), ("asan", n(out, 40000, 600000)), ("prod+W32+UNAL0", n(out, 40000, 300000)), ("asan+UNAL0", n(out, 20000, 100000)), ("clang", n(out, 40000, 600000))]
     if out.tier == "thorough":
-        v += [("clang", 600000), ("prod+UNAL0", 300000), ("prod+W32", 300000), ("prod+O0", 100000), ("prod+NEUTRAL", 100000), ("asanclang", 100000)]
+        v += [("clang+W32", 200000), ("prod+UNAL0", 300000), ("prod+W32", 300000), ("prod+O0", 100000), ("prod+NEUTRAL", 100000), ("asanclang", 100000)]
     for vname, cases in v:
         exe = build_driver("drv_buf", ["drv_buf.c"] + HIST, vname)
         run_sharded(out, exe, ["--prop", "C09", "--mode", "c09"], vname, cases)
@@ -386,6 +386,9 @@ def c11(out):
     # long-lived CTR objects with calls of 64 KiB..1 MiB under MSan: every output byte of every call is shadow-tested
     exe = build_driver("drv_ctr", ["drv_ctr.c"] + HIST, "msan")
     run_sharded(out, exe, ["--prop", "C11", "--mode", "marathon", "--marathon-ops", "2000", "--marathon-bigfreq", "160", "--case-timeout", "600"], "msan", 9 if out.tier == "quick" else 54, shards=9, label="msan-marathon")
+    # allocation failure inside init with the caller's handle marked undefined: the handle fields must come back defined (inert)
+    exe = build_driver("drv_life", ["drv_life.c", "allocmon.c"] + HIST, "msan", extra=WRAP)
+    run_sharded(out, exe, ["--prop", "C11", "--mode", "c16"], "msan", 108 * (2 if out.tier == "quick" else 10), label="msan-failed-init")
     # parallel-ECB calls of 4096 .. 70001 blocks under MSan with the output buffer pre-marked undefined
     exe = build_driver("drv_par", ["drv_par.c"] + HIST, "msan")
     run_sharded(out, exe, ["--prop", "C11", "--mode", "big", "--case-timeout", "600"], "msan", 36 * 3 if out.tier == "quick" else 36 * 8, shards=12, label="msan-big-parallel")
@@ -535,13 +538,17 @@ def c08(out):
     exe = build_driver("drv_ct", ["drv_ct.c"] + HIST, "msan")
     if _ct_control(out, exe, core.san_env("msan"), [], "msan", True):
         run_sharded(out, exe, [], "msan", n(out, 6000, 120000), label="msan")
+        # the alternative scalar source paths (32-bit words, byte-order-neutral) have their own S-box / load-store code
+        for vname in ("msan+W32", "msan+NEUTRAL"):
+            exe2 = build_driver("drv_ct", ["drv_ct.c"] + HIST, vname)
+            run_sharded(out, exe2, [], vname, n(out, 2400, 30000), label=vname)
     _trace_equality(out, "prod", n(out, 36, 600))
     if out.tier == "thorough":
         _trace_equality(out, "clang", 200)
         for vname in ("clang", "prod+W32", "prod+UNAL0", "prod+NEUTRAL", "prod+O0", "clang+W32"):
             exe = build_driver("drv_ct_vg", ["drv_ct.c"] + HIST, vname, extra=["-DVH_VALGRIND"])
             run_sharded(out, exe, ["--case-timeout", "900"], vname, 9000, label="memcheck-" + vname, wrapper=vgw, timeout=3000)
-        for vname in ("msan+W32", "msan+NEUTRAL", "msan+UNAL0"):
+        for vname in ("msan+W32+NEUTRAL", "msan+UNAL0"):
             exe = build_driver("drv_ct", ["drv_ct.c"] + HIST, vname)
             run_sharded(out, exe, [], vname, 30000, label=vname)
     out.assumptions += ["memcheck / MSan definedness propagation is the taint model: a secret that reaches a branch condition or an address on an executed path is reported; paths not executed by the grid are not judged",
